@@ -6,14 +6,14 @@ import numpy as np
 
 from .. import plan as P
 from ..sim import Monitor, tree_digest, tree_struct
-from .common import all_demes, flat, strictly_better
+from .common import all_demes, fb, flat, strictly_better
 from .c18 import rng_state_digest
 from .c07 import C07Monitor
 from .c08 import limit_of
 
 PROP = "C19"
-N_QUICK = 1500
-N_THOROUGH = 30000
+N_QUICK = 3000
+N_THOROUGH = 40000
 RULE = ("Fault schedule per plan: at chosen metaepoch boundaries the real tree.pickle_dump(path) is called into the "
         "in-memory file system (some dumps with an injected ENOSPC after k bytes); right after every successful dump "
         "the snapshot is loaded and compared; at an arbitrary later GSC consult (same boundary, mid-metaepoch, "
@@ -26,6 +26,7 @@ EXPECTED_PROBES = ["c19-dumps-compared", "c19-loads-compared", "c19-dump-io-fail
                    "c19-continued-run-terminated", "c19-crash-mid-metaepoch", "c19-snapshot-with-cma",
                    "c19-snapshot-with-hibernating-deme", "c19-snapshot-with-qmc", "c19-snapshot-with-shade",
                    "c19-snapshot-with-local", "c19-lambda-objective", "c19-callable-objective", "c19-second-restart"]
+THOROUGH_PROBES = ["c19-enumerated-plans", "c19-enumerated-pairs"]
 ASSUMPTIONS = ["what a torn or truncated snapshot file loads as is not judged (the property promises nothing there)",
                "after a restart the global generators are re-seeded from the plan (a restarted process would be seeded afresh too)"]
 WALL_S = 90.0
@@ -53,6 +54,19 @@ def gen(seed, tier):
             crashes.append(c1 + P.loguniform_int(r, 1, 80))
         f["crash_at_consult"] = crashes
     pl["objective_form"] = r.choice(["closure", "lambda", "callable"])
+    if seed % 7 == 0:
+        P.nan_stratum(pl, seed)
+    if r.random() < 0.5 and 1 not in f["snapshot_at_boundary"]:
+        f["snapshot_at_boundary"] = sorted(set(f["snapshot_at_boundary"]) | {1, 2})
+    if tier == "thorough" and seed % 6 == 0:
+        # small plan whose whole (snapshot boundary x later crash consult) fault space is enumerated
+        pl["c19_enumerate"] = True
+        pl["gsc"] = {"kind": "metaepoch_limit", "limit": r.randint(2, 4)}
+        for l in pl["levels"]:
+            if "pop_size" in l:
+                l["pop_size"] = min(l["pop_size"], 8 if l.get("ea") != "MWEA" else 8)
+            l["generations"] = min(l.get("generations", 1), 2)
+        pl["faults"] = {"snapshot_path": "snap.pkl"}
     return pl
 
 
@@ -76,16 +90,50 @@ class C19Monitor(Monitor):
         self.last_verdict = None
 
     # ------------------------------------------------------------------ observation of a tree
+    def _accessors(self, tree):
+        """Public per-deme query accessors (values or the exception they raise), for the observational comparison."""
+        out = []
+        for d in all_demes(tree):
+            row = [d._id]
+            for name in ("centroid", "mean", "covariance_matrix", "best_fitness_by_metaepoch", "metaepoch_count",
+                         "started_at", "is_active", "n_evaluations"):
+                try:
+                    v = getattr(d, name)
+                    if isinstance(v, np.ndarray):
+                        v = ("array", v.shape, np.ascontiguousarray(v, dtype=float).tobytes())
+                    elif isinstance(v, dict):
+                        v = tuple(sorted((k, fb(float(x))) for k, x in v.items()))
+                    row.append((name, v))
+                except Exception as e:
+                    row.append((name, "raises " + type(e).__name__))
+            bi = d.best_individual
+            if self.w.plan.get("nan_stratum"):
+                bi = None  # with NaN fitness ties "the best" is a documented coin flip (FunctionProblem.worse_than)
+            row.append(("best", None if bi is None else (np.asarray(bi.genome, dtype=float).tobytes(), fb(bi.fitness))))
+            out.append(tuple(row))
+        return out
+
     def _observe(self, tree):
+        # observing must not itself disturb the run: comparisons of NaN fitness values draw from the global
+        # `random` generator (FunctionProblem.worse_than), so the generators' states are put back afterwards
+        st = (np.random.get_state(), _random.getstate())
+        try:
+            return self._observe_inner(tree)
+        finally:
+            np.random.set_state(st[0])
+            _random.setstate(st[1])
+
+    def _observe_inner(self, tree):
         return {
+            "accessors": self._accessors(tree),
             "digest": tree_digest(tree),
             "struct": tree_struct(tree),
-            "summary": tree.summary(),
+            "summary": tree.summary() if not self.w.plan.get("nan_stratum") else None,
             "counters": [(d._id, d.n_evaluations) for d in all_demes(tree)],
             "flags": [(d._id, bool(d._active), bool(d._hibernating)) for d in all_demes(tree)],
             "n_evaluations": tree.n_evaluations,
             "metaepoch_count": tree.metaepoch_count,
-            "best": float(tree.best_individual.fitness),
+            "best": fb(tree.best_individual.fitness) if not self.w.plan.get("nan_stratum") else None,
             # the shipped GSC's own verdict (the injected external stop signal lives in the simulator, not in the tree)
             "gsc": bool(getattr(tree._gsc, "inner", tree._gsc)(tree)),
         }
@@ -142,6 +190,8 @@ class C19Monitor(Monitor):
                 w.probe("c19-snapshot-with-qmc")
             if any(x._hibernating for x in all_demes(tree)):
                 w.probe("c19-snapshot-with-hibernating-deme")
+            if w.plan.get("nan_stratum"):
+                w.probe("c19-snapshot-nan-stratum")
             if w.plan.get("objective_form") == "lambda":
                 w.probe("c19-lambda-objective")
             elif w.plan.get("objective_form") == "callable":
@@ -174,7 +224,9 @@ class C19Monitor(Monitor):
             d = self._diff(self.durable, obs)
             if d:
                 self.violate("restored-tree-differs/" + "+".join(d[:3]), {"changed": d})
-            self.best_floor = self.durable["best"]
+            import struct as _st
+
+            self.best_floor = None if self.durable["best"] is None else _st.unpack("<d", self.durable["best"])[0]
         self.base = {d._id: d.n_evaluations for d in all_demes(tree)}
         self.req_seen = len(w.requests)
         self.req_by = {}
@@ -198,8 +250,8 @@ class C19Monitor(Monitor):
         self.struct.on_tree(tree)
 
     def _census(self, tree, where):
-        if self.L is None:
-            return
+        if self.L is None or self.w.plan.get("nan_stratum"):
+            return  # (with NaN fitness values the filters' comparisons are coin flips: the limit is not judged there)
         for li in range(1, len(tree.levels)):
             n = sum(1 for d in tree.levels[li] if d._active)
             if n > self.L:
@@ -213,6 +265,8 @@ class C19Monitor(Monitor):
         self._census(tree, where)
         if where == "boundary":
             self.struct._structure(tree, "boundary")
+            if self.w.plan.get("nan_stratum"):
+                return
             bf = float(tree.best_individual.fitness)
             if self.best_floor is not None and strictly_better(self.best_floor, bf, self.maximize):
                 self.violate("best-got-worse-after-restart", {"snapshot_best": self.best_floor, "now": bf})
@@ -242,6 +296,54 @@ class C19Monitor(Monitor):
 
 
 MONITORS = [C19Monitor]
+
+
+def run(plan):
+    """Default: one execution of the plan's own fault schedule.  Enumeration plans (thorough tier): a fault-free
+    dry run counts boundaries B and consults N, then *every* pair (snapshot at boundary k, crash at consult c >= the
+    consult of boundary k) is executed."""
+    import copy
+
+    from .. import build, runner
+
+    mod = sys.modules[__name__]
+    if not plan.get("c19_enumerate"):
+        return runner.default_run(mod, plan)
+    dry = build.execute(plan, ())
+    bcons = [i + 1 for i, c in enumerate(dry.consults) if c[1] == "boundary"]
+    n_cons = len(dry.consults)
+    ok = dry.outcome == "returned"
+    dry.dispose()
+    agg = None
+    pairs = 0
+    if ok:
+        for k, first in enumerate(bcons[:-1], start=1):  # the last boundary is the one run() returns at
+            for c in range(first, n_cons + 1):
+                p2 = copy.deepcopy(plan)
+                p2["faults"] = {"snapshot_path": "snap.pkl", "snapshot_at_boundary": [k], "crash_at_consult": [c]}
+                w = build.execute(p2, MONITORS)
+                pairs += 1
+                if agg is None:
+                    agg = w
+                else:
+                    for v in w.violations:
+                        v = dict(v)
+                        v["detail"] = dict(v["detail"], enumerated_pair=[k, c])
+                        agg.violations.append(v)
+                    for kk, vv in w.probes.items():
+                        agg.probes[kk] = agg.probes.get(kk, 0) + vv
+                    for kk, vv in w.fired.items():
+                        agg.fired[kk] = agg.fired.get(kk, 0) + vv
+                    agg.states |= w.states
+                    w.dispose()
+    if agg is None:
+        agg = build.execute(plan, MONITORS)
+    try:
+        agg.probe("c19-enumerated-plans")
+        agg.probe("c19-enumerated-pairs", pairs)
+        return runner.summarize_world(agg, mod, plan)
+    finally:
+        agg.dispose()
 
 
 def nontrivial(w):
